@@ -51,6 +51,7 @@ theorem gstep_everNe {c : Cfg} {σ : RunSt} {g : Ghost} (h : EverNe g) (op : Op)
   | produce => simp only [gstep]; split <;> exact h
   | produceFail => simp only [gstep]; split <;> exact h
   | produceSame => simp only [gstep]; split <;> exact h
+  | produceCancelled _ => simp only [gstep]; split <;> exact h
   | reapPutFails => exact h
   | restart => intro b hb; rw [show (gstep c σ g .restart).ever = g.ever from cut_ever _ _ _] at hb; exact h b hb
   | crash k => intro b hb; rw [show (gstep c σ g (.crash k)).ever = g.ever from cut_ever _ _ _] at hb; exact h b hb
@@ -193,5 +194,27 @@ theorem produce_keeps_queued {c : Cfg} {σ : RunSt} {g : Ghost} (hc : CfgOK c) (
       rw [hall]
       exact List.mem_append_right _ ht
     · exact List.mem_append_right _ ht
+
+/-- **the batch a production step took is in the chain or in the block waiting at `height + 1` afterwards** — whatever
+the execution layer answers, with every clock that did not step backwards -/
+theorem taken_batch_kept {c : Cfg} {σ : RunSt} {g : Ghost} (hc : CfgOK c) (h : FInv c σ g) (ex : ExecResp) (clk : Clock)
+    (hclk : clk ≠ .back) {b : Queue.Batch} {rest : List FW} (htook : (produce c σ.n ex clk).2.1 = FW.qdel b :: rest) :
+    ∀ t ∈ b, t ∈ chainTxs (produce c σ.n ex clk).1.prod.store ++ pendingTxs (produce c σ.n ex clk).1.prod.store := by
+  obtain ⟨P', sws, pre, q', T, e1, e2, f1, f2, f3, _, _, _, hcase, _, f8, _⟩ :=
+    produce_cases hc.signer h.live h.synced h.wm h.first h.tb ex clk hclk
+  rw [e1]
+  show ∀ t ∈ b, t ∈ chainTxs P'.store ++ pendingTxs P'.store
+  rcases hcase with ⟨rfl, _, _⟩ | ⟨b', rest', rfl, _, _, rfl, h2⟩
+  · exfalso
+    rw [e2] at htook
+    exact qdel_ne_st htook
+  · rw [e2] at htook
+    simp only [List.cons_append, List.nil_append, List.cons.injEq, FW.qdel.injEq] at htook
+    obtain ⟨rfl, _⟩ := htook
+    intro t ht
+    have hall := f8 sws.length h2
+    rw [List.take_length, ← f1, node_durAll f2.toInv f3] at hall
+    rw [hall]
+    exact List.mem_append_right _ ht
 
 end Flow
